@@ -40,6 +40,14 @@ def run(chk, replay=None):
     if not ok:
         bad = rows[matched] if matched < len(rows) else None
         chk.violation("C20:modes", trace, "lane %d rejected by Trace_C20: %s" % (matched + 1, str(bad)[:700]))
+    if ok:
+        # growth pass: behaviour beyond the listed property (what is printed / written in which mode, summary structure)
+        res2 = vt.tlc("Trace_C20", env={"TRACE": trace, "GROWTH": "1"}, workers=1, tag="C20")
+        chk.add_tlc("growth pass (printing per mode, file content, summary structure per Summary.tla)", res2)
+        chk.cov["growth_pass_accepted"] = res2.rc == 0
+        if res2.rc != 0:
+            bad = rows[res2.matched] if res2.matched is not None and res2.matched < len(rows) else None
+            print("NOTE property=C20 growth pass (not part of the property): event %s differs from the specification: %s" % (res2.matched, str(bad)[:300]))
     if thorough and ok and not replay:
         import copy
         bad = copy.deepcopy(rows)
